@@ -222,4 +222,289 @@ theorem fieldType_shape (t : Ty) : ∀ (v : J) (p : List Bytes) (t' : Ty),
             obtain ⟨w', hw', hsw⟩ := ih k t hm w p t' (h2 k t w hm hgk) h
             exact ⟨w', by simp [project, hgk, projectF_eq, hg, hw'], hsw⟩
 
+
+/-! ### references -/
+
+theorem refType_call_eq (Γ : Env) (id o : Bytes) (p : List Bytes) (sig : CallSig)
+    (h : Γ.calls.lookup id = some sig) :
+    refType Γ (.call id (o :: p)) = fieldType sig.whole (o :: p) := by
+  simp only [refType, h, CallSig.whole, CallSig.struct]
+  cases sig.mode <;> simp only [fieldType, fieldTypeF_eq, liftMode] <;>
+    cases sig.outs.get o <;> simp <;> rename_i t <;> cases fieldType t p <;> simp
+
+/-- a reference that resolves at compile time evaluates, in a store whose
+values conform to the declared types, to a value of the resolved type -/
+theorem ref_shape (Γ : Env) (ρ : Store) (hρ : StoreOk Γ ρ) :
+    ∀ (e : Exp) (s : Ty), refType Γ e = some s → ∃ v, eval Γ ρ e = some v ∧ Shape s v := by
+  intro e s h
+  cases e with
+  | self id p =>
+    simp only [refType] at h
+    cases hl : Γ.self.lookup id with
+    | none => simp [hl] at h
+    | some t =>
+      simp only [hl] at h
+      obtain ⟨v, hv, hval⟩ := hρ.1 id t hl
+      obtain ⟨w, hw, hs⟩ := fieldType_shape t v p s (shape_of_valid t v hval) h
+      exact ⟨w, by simp [eval, hl, hv, hw], hs⟩
+  | call id p =>
+    cases hl : Γ.calls.lookup id with
+    | none => simp [refType, hl] at h
+    | some sig =>
+      obtain ⟨v, hv, hval⟩ := hρ.2 id sig hl
+      cases p with
+      | nil =>
+        simp only [refType, hl] at h
+        have hs : s = sig.whole := by
+          cases ho : sig.outs <;> simp [ho] at h <;> exact h.symm
+        subst hs
+        exact ⟨v, by simp [eval, hl, hv, project_nil], shape_of_valid _ v hval⟩
+      | cons o p =>
+        rw [refType_call_eq Γ id o p sig hl] at h
+        obtain ⟨w, hw, hs⟩ := fieldType_shape sig.whole v (o :: p) s (shape_of_valid _ v hval) h
+        exact ⟨w, by simp [eval, hl, hv, hw], hs⟩
+  | _ => simp [refType] at h
+
+/-! ### evaluation of composite literals -/
+
+theorem evalL_spec (Γ : Env) (ρ : Store) (Q : J → Prop) : ∀ (xs : Exps),
+    (∀ x ∈ xs.toList, ∃ v, eval Γ ρ x = some v ∧ Q v) →
+      ∃ vs, evalL Γ ρ xs = some vs ∧ ∀ v ∈ vs, Q v
+  | .nil, _ => ⟨[], by simp [evalL], by simp⟩
+  | .cons e r, h => by
+    obtain ⟨v, hv, hq⟩ := h e (by simp [Exps.toList])
+    obtain ⟨vs, hvs, hall⟩ := evalL_spec Γ ρ Q r (fun x hx => h x (by simp [Exps.toList, hx]))
+    refine ⟨v :: vs, by simp [evalL, hv, hvs], ?_⟩
+    intro w hw
+    rcases List.mem_cons.mp hw with rfl | hw
+    · exact hq
+    · exact hall w hw
+
+theorem evalKV_some (Γ : Env) (ρ : Store) : ∀ (kvs : KVs),
+    (∀ kv ∈ kvs.toList, ∃ v, eval Γ ρ kv.2 = some v) → ∃ vs, evalKV Γ ρ kvs = some vs
+  | .nil, _ => ⟨[], by simp [evalKV]⟩
+  | .cons k e r, h => by
+    obtain ⟨v, hv⟩ := h (k, e) (by simp [KVs.toList])
+    obtain ⟨vs, hvs⟩ := evalKV_some Γ ρ r (fun x hx => h x (by simp [KVs.toList, hx]))
+    exact ⟨(k, v) :: vs, by simp [evalKV, hv, hvs]⟩
+
+theorem evalKV_mem (Γ : Env) (ρ : Store) : ∀ (kvs : KVs) (vs : List (Bytes × J)),
+    evalKV Γ ρ kvs = some vs →
+      ∀ kv ∈ vs, ∃ e, (kv.1, e) ∈ kvs.toList ∧ eval Γ ρ e = some kv.2
+  | .nil, vs, h => by simp [evalKV] at h; subst h; simp
+  | .cons k e r, vs, h => by
+    simp only [evalKV] at h
+    cases hv : eval Γ ρ e with
+    | none => simp [hv] at h
+    | some v =>
+      cases hr : evalKV Γ ρ r with
+      | none => simp [hv, hr] at h
+      | some ws =>
+        simp [hv, hr] at h
+        subst h
+        intro kv hkv
+        rcases List.mem_cons.mp hkv with rfl | hkv
+        · exact ⟨e, by simp [KVs.toList], hv⟩
+        · obtain ⟨e', he', hev⟩ := evalKV_mem Γ ρ r ws hr kv hkv
+          exact ⟨e', by simp [KVs.toList, he'], hev⟩
+
+/-- member lookup commutes with evaluation (both are last-wins) -/
+theorem getKey_evalKV (Γ : Env) (ρ : Store) (k : Bytes) : ∀ (kvs : KVs) (vs : List (Bytes × J)),
+    evalKV Γ ρ kvs = some vs →
+      match kvs.get k with
+      | some e => ∃ v, eval Γ ρ e = some v ∧ getKey k vs = some v
+      | none => getKey k vs = none
+  | .nil, vs, h => by simp [evalKV] at h; subst h; simp [KVs.get, getKey]
+  | .cons k' e r, vs, h => by
+    simp only [evalKV] at h
+    cases hv : eval Γ ρ e with
+    | none => simp [hv] at h
+    | some v =>
+      cases hr : evalKV Γ ρ r with
+      | none => simp [hv, hr] at h
+      | some ws =>
+        simp [hv, hr] at h
+        subst h
+        have ih := getKey_evalKV Γ ρ k r ws hr
+        simp only [KVs.get, getKey]
+        cases hg : KVs.get k r with
+        | some e' =>
+          simp only [hg] at ih ⊢
+          obtain ⟨w, hw, hgw⟩ := ih
+          exact ⟨w, hw, by simp [hgw]⟩
+        | none =>
+          simp only [hg] at ih ⊢
+          by_cases hk : k' = k
+          · simp [hk, ih, hv]
+          · simp [hk, ih]
+
+mutual
+  theorem eval_of_noRef (Γ : Env) (ρ : Store) : ∀ (e : Exp), e.hasRef = false → ∃ v, eval Γ ρ e = some v
+    | .null, _ => ⟨_, rfl⟩
+    | .int _, _ => ⟨_, rfl⟩
+    | .float _ _, _ => ⟨_, rfl⟩
+    | .str _, _ => ⟨_, rfl⟩
+    | .bool _, _ => ⟨_, rfl⟩
+    | .arr xs, h => by
+      obtain ⟨vs, hvs⟩ := evalL_of_noRef Γ ρ xs (by simpa [Exp.hasRef] using h)
+      exact ⟨.arr vs, by simp [eval, hvs]⟩
+    | .map _ kvs, h => by
+      obtain ⟨vs, hvs⟩ := evalKV_of_noRef Γ ρ kvs (by simpa [Exp.hasRef] using h)
+      exact ⟨.obj vs, by simp [eval, hvs]⟩
+    | .self _ _, h => by simp [Exp.hasRef] at h
+    | .call _ _, h => by simp [Exp.hasRef] at h
+  theorem evalL_of_noRef (Γ : Env) (ρ : Store) : ∀ (xs : Exps), xs.hasRef = false → ∃ vs, evalL Γ ρ xs = some vs
+    | .nil, _ => ⟨[], by simp [evalL]⟩
+    | .cons e r, h => by
+      simp only [Exps.hasRef, Bool.or_eq_false_iff] at h
+      obtain ⟨v, hv⟩ := eval_of_noRef Γ ρ e h.1
+      obtain ⟨vs, hvs⟩ := evalL_of_noRef Γ ρ r h.2
+      exact ⟨v :: vs, by simp [evalL, hv, hvs]⟩
+  theorem evalKV_of_noRef (Γ : Env) (ρ : Store) : ∀ (kvs : KVs), kvs.hasRef = false → ∃ vs, evalKV Γ ρ kvs = some vs
+    | .nil, _ => ⟨[], by simp [evalKV]⟩
+    | .cons k e r, h => by
+      simp only [KVs.hasRef, Bool.or_eq_false_iff] at h
+      obtain ⟨v, hv⟩ := eval_of_noRef Γ ρ e h.1
+      obtain ⟨vs, hvs⟩ := evalKV_of_noRef Γ ρ r h.2
+      exact ⟨(k, v) :: vs, by simp [evalKV, hv, hvs]⟩
+end
+
+
+/-! ### association-list facts for literals -/
+
+theorem KVs.get_mem : ∀ {kvs : KVs} {k : Bytes} {e : Exp}, kvs.get k = some e → (k, e) ∈ kvs.toList
+  | .nil, k, e, h => by simp [KVs.get] at h
+  | .cons k' e' r, k, e, h => by
+    simp only [KVs.get] at h
+    simp only [KVs.toList, List.mem_cons]
+    cases hr : KVs.get k r with
+    | some w =>
+      simp [hr] at h; subst h
+      exact Or.inr (KVs.get_mem hr)
+    | none =>
+      simp [hr] at h
+      obtain ⟨rfl, rfl⟩ := h
+      exact Or.inl rfl
+
+theorem KVs.get_none_of_not_mem : ∀ {kvs : KVs} {k : Bytes},
+    k ∉ kvs.toList.map Prod.fst → kvs.get k = none
+  | .nil, k, _ => by simp [KVs.get]
+  | .cons k' e' r, k, h => by
+    simp only [KVs.toList, List.map_cons, List.mem_cons, not_or] at h
+    simp only [KVs.get, KVs.get_none_of_not_mem h.2]
+    simp [Ne.symm h.1]
+
+theorem KVs.get_of_mem_nodup : ∀ {kvs : KVs} {k : Bytes} {e : Exp},
+    (kvs.toList.map Prod.fst).Nodup → (k, e) ∈ kvs.toList → kvs.get k = some e
+  | .nil, k, e, _, h => by cases h
+  | .cons k' e' r, k, e, hn, h => by
+    simp only [KVs.toList, List.map_cons, List.nodup_cons] at hn
+    simp only [KVs.toList, List.mem_cons, Prod.mk.injEq] at h
+    simp only [KVs.get]
+    rcases h with ⟨rfl, rfl⟩ | h
+    · rw [KVs.get_none_of_not_mem hn.1]; simp
+    · rw [KVs.get_of_mem_nodup hn.2 h]
+
+theorem KVs.wf_mem : ∀ {kvs : KVs}, kvs.wf = true → ∀ kv ∈ kvs.toList, kv.2.wf = true
+  | .nil, _, kv, h => by cases h
+  | .cons k e r, hw, kv, h => by
+    simp only [KVs.wf, Bool.and_eq_true] at hw
+    simp only [KVs.toList, List.mem_cons] at h
+    rcases h with rfl | h
+    · exact hw.1
+    · exact KVs.wf_mem hw.2 kv h
+
+theorem Exps.wf_mem : ∀ {xs : Exps}, xs.wf = true → ∀ x ∈ xs.toList, x.wf = true
+  | .nil, _, x, h => by cases h
+  | .cons e r, hw, x, h => by
+    simp only [Exps.wf, Bool.and_eq_true] at hw
+    simp only [Exps.toList, List.mem_cons] at h
+    rcases h with rfl | h
+    · exact hw.1
+    · exact Exps.wf_mem hw.2 x h
+
+theorem validFields_iff (Γ : Env) : ∀ (fs : Fields) (kvs : KVs),
+    validFields Γ fs kvs = true ↔
+      ∀ k t, (k, t) ∈ fs.toList → ∃ e, kvs.get k = some e ∧ validExp Γ t e = true
+  | .nil, kvs => by simp [validFields, Fields.toList]
+  | .cons k t r, kvs => by
+    have ih := validFields_iff Γ r kvs
+    simp only [validFields, Bool.and_eq_true, ih, Fields.toList, List.mem_cons, Prod.mk.injEq]
+    constructor
+    · rintro ⟨h1, h2⟩ k' t' (⟨rfl, rfl⟩ | h)
+      · cases hg : KVs.get k' kvs with
+        | none => simp [hg] at h1
+        | some e => simp [hg] at h1; exact ⟨e, rfl, h1⟩
+      · exact h2 _ _ h
+    · intro h
+      refine ⟨?_, fun k' t' h' => h _ _ (Or.inr h')⟩
+      obtain ⟨e, he, hv⟩ := h k t (Or.inl ⟨rfl, rfl⟩)
+      simp [he, hv]
+
+theorem holeFreeFields_iff (Γ : Env) : ∀ (fs : Fields) (kvs : KVs),
+    holeFreeFields Γ fs kvs = true ↔
+      ∀ k t, (k, t) ∈ fs.toList → ∀ e, kvs.get k = some e → holeFree Γ t e = true
+  | .nil, kvs => by simp [holeFreeFields, Fields.toList]
+  | .cons k t r, kvs => by
+    have ih := holeFreeFields_iff Γ r kvs
+    simp only [holeFreeFields, Bool.and_eq_true, ih, Fields.toList, List.mem_cons, Prod.mk.injEq]
+    constructor
+    · rintro ⟨h1, h2⟩ k' t' (⟨rfl, rfl⟩ | h) e he
+      · simpa [he] using h1
+      · exact h2 _ _ h e he
+    · intro h
+      refine ⟨?_, fun k' t' h' => h _ _ (Or.inr h')⟩
+      cases hg : KVs.get k kvs with
+      | none => rfl
+      | some e => exact h k t (Or.inl ⟨rfl, rfl⟩) e hg
+
+/-- a duplicate-free list contained in another is not longer -/
+theorem nodup_subset_length : ∀ (l1 l2 : List Bytes), l1.Nodup → (∀ x ∈ l1, x ∈ l2) →
+    l1.length ≤ l2.length
+  | [], _, _, _ => by simp
+  | a :: l1, l2, hn, hs => by
+    simp only [List.nodup_cons] at hn
+    have ha : a ∈ l2 := hs a List.mem_cons_self
+    have := nodup_subset_length l1 (l2.erase a) hn.2 (fun x hx => by
+      have hne : x ≠ a := by rintro rfl; exact hn.1 hx
+      exact (List.mem_erase_of_ne hne).mpr (hs x (List.mem_cons_of_mem _ hx)))
+    rw [List.length_erase_of_mem ha] at this
+    have hpos : 0 < l2.length := List.length_pos_of_mem ha
+    simp only [List.length_cons]
+    omega
+
+/-- an accepted struct literal has no members beyond the declared ones -/
+theorem struct_literal_no_extra (Γ : Env) (fs : Fields) (kvs : KVs)
+    (hfs : (fs.toList.map Prod.fst).Nodup)
+    (hv : validFields Γ fs kvs = true)
+    (hx : (decide (kvs.toList.length > fs.toList.length) &&
+            kvs.toList.any (fun kv => (fs.get kv.1).isNone)) = false) :
+    ∀ kv ∈ kvs.toList, ∃ t, (kv.1, t) ∈ fs.toList := by
+  intro kv hkv
+  cases hg : fs.get kv.1 with
+  | some t => exact ⟨t, Fields.get_mem hg⟩
+  | none =>
+    exfalso
+    have hany : kvs.toList.any (fun kv => (fs.get kv.1).isNone) = true :=
+      List.any_eq_true.mpr ⟨kv, hkv, by simp [hg]⟩
+    have hnot : kv.1 ∉ fs.toList.map Prod.fst := by
+      intro hm
+      obtain ⟨⟨k, t⟩, hkt, hk⟩ := List.mem_map.mp hm
+      simp only at hk
+      subst hk
+      rw [Fields.get_of_mem hfs hkt] at hg
+      cases hg
+    have hlen := nodup_subset_length (kv.1 :: fs.toList.map Prod.fst) (kvs.toList.map Prod.fst)
+      (List.nodup_cons.mpr ⟨hnot, hfs⟩) (by
+        intro x hx'
+        rcases List.mem_cons.mp hx' with rfl | hx'
+        · exact List.mem_map.mpr ⟨kv, hkv, rfl⟩
+        · obtain ⟨⟨k, t⟩, hkt, rfl⟩ := List.mem_map.mp hx'
+          obtain ⟨e, he, _⟩ := (validFields_iff Γ fs kvs).mp hv k t hkt
+          exact List.mem_map.mpr ⟨(k, e), KVs.get_mem he, rfl⟩)
+    simp only [List.length_cons, List.length_map] at hlen
+    have : decide (kvs.toList.length > fs.toList.length) = true := by
+      simp only [decide_eq_true_eq]; omega
+    simp [this, hany] at hx
+
 end Martian.Typing
